@@ -27,10 +27,11 @@ class _Fmt(rt.Format):
         self.fields = fields
 
 
-FIDE_FMT = _Fmt(('abstract',))
-FAMA_FMT = _Fmt(('ctc-names',))
-AFM_FMT = _Fmt(('attrs',))
-GLEN_FMT = _Fmt(('ctc-names', 'ctc-by-name'))
+# fields a format has no notation for must come back with their defaults (Boolean, [1..1], concrete, no attributes)
+FIDE_FMT = _Fmt(('abstract', 'ftype', 'fcard', 'attrs'))
+FAMA_FMT = _Fmt(('ctc-names', 'abstract', 'ftype', 'fcard', 'attrs'))
+AFM_FMT = _Fmt(('attrs', 'abstract', 'ftype', 'fcard'))
+GLEN_FMT = _Fmt(('ctc-names', 'ctc-by-name', 'abstract', 'ftype', 'fcard', 'attrs'))
 READERS = {'FIDE': FeatureIDEReader, 'FAMA': XMLReader, 'AFM': AFMReader, 'GLEN': GlencoeReader}
 EMIT = {'FIDE': fide, 'AFM': afm, 'GLEN': glencoe}
 FMT = {'FIDE': FIDE_FMT, 'FAMA': FAMA_FMT, 'AFM': AFM_FMT, 'GLEN': GLEN_FMT}
@@ -107,6 +108,9 @@ def cases(tier, seed):
     fama_models.append(_with(CAR5G, [('REQUIRES', 'Bb', 'Dc'), ('EXCLUDES', 'Ad', 'Ee'), ('REQUIRES', 'Bb', 'Dc')]))
     casey = M(F('Fa', [R(0, 1, [F('Cache')]), R(0, 1, [F('cache')]), R(0, 1, [F('Disk')]), R(0, 1, [F('disk')])]))
     fama_models.append(_with(casey, [('REQUIRES', 'Cache', 'Disk'), ('REQUIRES', 'cache', 'disk'), ('EXCLUDES', 'Cache', 'disk')]))
+    # binary relations whose cardinality is not one of [0..1] / [1..1] ("read as written")
+    for (a, b) in ((1, 2), (0, 3), (2, 2), (0, 0), (1, -1)):
+        fama_models.append(M(F('Fa', [R(a, b, [F('Bb', [R(0, 1, [F('Ee')])])]), R(0, 1, [F('Dc')])])))
     for m in fama_models:
         for ci in range(len(FAMA_CHOICES)):
             yield ('FAMA', m, (ci,))
@@ -315,6 +319,9 @@ def check(case):
         engine.tick()
         ob = bd.observe(fm)
     except Exception as exc:  # noqa: BLE001
+        if kind == 'FIDE' and _unkey(fide, k).get('leaf_tag', 'feature') != 'feature' and sh.size(model) > 1:
+            engine.validated()      # degenerate document (childless group element): rejecting it is allowed
+            return []
         return [Fail('%s-valid-document-rejected:%s' % (kind, type(exc).__name__), {'doc': doc[:500], 'msg': str(exc)[:120]})]
     expected = model
     if kind == 'AFM':
